@@ -28,7 +28,7 @@ Qed.
 (* replaying the effects of a run reproduces the file the run ends with *)
 Theorem effects_replay fuel : forall c s, replay (file s) (effects fuel c s) = file (fst (exec fuel c s)).
 Proof.
-  induction c as [ |a IHa b IHb|x e|a e|k v|cnd a IHa b IHb|cnd IHcnd x body IHbody| |z|e|e|e|x|x n|e|e| |w|x h d|body IHbody
+  induction c as [ |a IHa b IHb|x e|a e|k v|cnd a IHa b IHb|cnd IHcnd x body IHbody| |z|e|e|e|x|x n|e|e| |w|x h d|body IHbody|body IHbody
                  |body IHbody handler IHh els IHe| ]; intros s; cbn [effects exec]; try reflexivity.
   - (* SSeq *) specialize (IHa s). destruct (exec fuel a s) as [s1 o] eqn:E1. cbn [fst] in IHa.
     rewrite replay_app, IHa. destruct o; cbn [replay fold_left]; try reflexivity. apply IHb.
@@ -49,6 +49,7 @@ Proof.
     destruct (s_wr (strm s)); reflexivity.
   - (* SUnpackRead *) destruct (s_closed (strm s)); [reflexivity|]. unfold do_read. destruct (unpack h _); reflexivity.
   - (* SCall *) specialize (IHbody s). destruct (exec fuel body s) as [s1 o]. cbn [fst] in *. rewrite IHbody. destruct o; reflexivity.
+  - (* SCallRet *) specialize (IHbody s). destruct (exec fuel body s) as [s1 o]. cbn [fst] in *. rewrite IHbody. destruct o; reflexivity.
   - (* STryElse *) specialize (IHbody s). destruct (exec fuel body s) as [s1 o] eqn:E1. cbn [fst] in IHbody.
     rewrite replay_app, IHbody. destruct o; cbn [replay fold_left]; try reflexivity.
     + apply IHe.
